@@ -4,6 +4,7 @@ package pfcp
 
 import (
 	"github.com/wmnsk/go-pfcp/ie"
+	"github.com/wmnsk/go-pfcp/message"
 )
 
 // C04: every SEID resolves to exactly the live session it was issued for.
@@ -464,12 +465,72 @@ func zzC04DeleteHeader(maxL int) {
 	zzCover("C04.del.done")
 }
 
-func ZZ_C04_Lookup()       { zzC04Lookup(zzMaxL()) }
-func ZZ_C04_NodeLookup()   { zzC04NodeLookup(zzMaxL()) }
-func ZZ_C04_New()          { zzC04New(zzMaxL()) }
-func ZZ_C04_DeleteNode()   { zzC04Delete(zzMaxL(), true) }
-func ZZ_C04_DeleteLocal()  { zzC04Delete(zzMaxL(), false) }
-func ZZ_C04_Reset()        { zzC04Reset(zzMaxL()) }
-func ZZ_C04_RemoteSess()   { zzC04RemoteSess(zzMaxL()) }
-func ZZ_C04_ModifyHeader() { zzC04ModifyHeader(zzMaxL()) }
-func ZZ_C04_DeleteHeader() { zzC04DeleteHeader(zzMaxL()) }
+// Session Report Response with SEID 0: "the peer has no such session" - the session the answered
+// report was sent for (CP SEID of the request header, peer address) is removed, completely, and
+// nothing else changes. The representation invariant must hold afterwards (a released SEID must
+// not stay in its former owner's set: it will be re-issued).
+func zzC04ReportRspZero(maxL int) {
+	sh := zzMkShape(maxL, true)
+	sh.zzInv("pre")
+	r := nondetU64("rseid")
+	ai := nondetChoice("addr", 2)
+	sn := sh.snap()
+	req := message.NewSessionReportRequest(0, 0, r, 0, 0, ie.NewReportType(0, 0, 1, 0))
+	rsp := message.NewSessionReportResponse(0, 0, 0, 0, 0, ie.NewCause(ie.CauseSessionContextNotFound))
+	// ghost: which live sessions match (CP SEID, peer)
+	var cand [4]bool
+	ncand := 0
+	for i := 0; i < sh.L; i++ {
+		if sh.live[i] && sh.owner[i] == ai {
+			if sh.cp[i] == r {
+				cand[i] = true
+				ncand++
+			}
+		}
+	}
+	sh.s.handleSessionReportResponse(rsp, zzAddr(ai), req)
+	if ncand == 0 {
+		sh.unchanged("reportrsp0-miss", sn)
+		zzCover("C04.reportrsp0.miss")
+		return
+	}
+	// exactly one matching session is gone; every other session is where it was
+	gone := 0
+	for i := 0; i < sh.L; i++ {
+		if !sh.live[i] {
+			continue
+		}
+		if sh.s.lnode.sess[i] == nil {
+			gone++
+			zzAssert("C04.reportrsp0.removed-session-matches", cand[i])
+			zzAssert("C04.reportrsp0.rules-withdrawn", sh.dp.rulesOf(uint64(i+1)) == 0)
+			sh.live[i] = false
+		} else {
+			zzAssert("C04.reportrsp0.others-kept", sh.s.lnode.sess[i] == sn.sess[i])
+		}
+	}
+	zzAssert("C04.reportrsp0.exactly-one-removed", gone == 1)
+	for _, c := range sh.dp.calls[sn.dpn:] {
+		zzAssert("C04.reportrsp0.before-release", c.slotLive)
+	}
+	sh.zzInv("post-reportrsp0")
+	// the released SEID is what the next establishment gets; it must belong to the new owner only
+	nn := sh.nodes[1-ai].NewSess(nondetU64("newcp"))
+	if nn != nil {
+		_, e1 := sh.nodes[1-ai].Sess(nn.LocalID)
+		_, e2 := sh.nodes[ai].Sess(nn.LocalID)
+		zzAssert("C04.reportrsp0.reissued-to-new-owner-only", e1 == nil && e2 != nil)
+	}
+	zzCover("C04.reportrsp0.hit")
+}
+
+func ZZ_C04_ReportRspZero() { zzC04ReportRspZero(zzMaxL()) }
+func ZZ_C04_Lookup()        { zzC04Lookup(zzMaxL()) }
+func ZZ_C04_NodeLookup()    { zzC04NodeLookup(zzMaxL()) }
+func ZZ_C04_New()           { zzC04New(zzMaxL()) }
+func ZZ_C04_DeleteNode()    { zzC04Delete(zzMaxL(), true) }
+func ZZ_C04_DeleteLocal()   { zzC04Delete(zzMaxL(), false) }
+func ZZ_C04_Reset()         { zzC04Reset(zzMaxL()) }
+func ZZ_C04_RemoteSess()    { zzC04RemoteSess(zzMaxL()) }
+func ZZ_C04_ModifyHeader()  { zzC04ModifyHeader(zzMaxL()) }
+func ZZ_C04_DeleteHeader()  { zzC04DeleteHeader(zzMaxL()) }
